@@ -465,13 +465,21 @@ impl HttpBody for ReChunk {
 // scripted streams
 // ---------------------------------------------------------------------------------------------
 
-struct ReqStream(VecDeque<Tok>);
+// Both scripted streams are strict: once they have returned `Ready(None)` a further poll panics
+// (as `futures::stream::unfold` does) — tonic must not poll a finished user stream again (seed C02c).
+struct ReqStream(VecDeque<Tok>, bool);
 
 impl Stream for ReqStream {
     type Item = Vec<u8>;
     fn poll_next(mut self: Pin<&mut Self>, cx: &mut Context<'_>) -> Poll<Option<Vec<u8>>> {
         match self.0.pop_front() {
-            None => Poll::Ready(None),
+            None => {
+                if self.1 {
+                    panic!("request stream polled again after it returned Ready(None)");
+                }
+                self.1 = true;
+                Poll::Ready(None)
+            }
             Some(Tok::Pend) => {
                 cx.waker().wake_by_ref();
                 Poll::Pending
@@ -484,13 +492,23 @@ impl Stream for ReqStream {
 struct RespStream {
     toks: VecDeque<Tok>,
     fin: Option<Status>,
+    ended: bool,
 }
 
 impl Stream for RespStream {
     type Item = Result<Vec<u8>, Status>;
     fn poll_next(mut self: Pin<&mut Self>, cx: &mut Context<'_>) -> Poll<Option<Self::Item>> {
         match self.toks.pop_front() {
-            None => Poll::Ready(self.fin.take().map(Err)),
+            None => match self.fin.take() {
+                Some(st) => Poll::Ready(Some(Err(st))),
+                None => {
+                    if self.ended {
+                        panic!("response stream polled again after it returned Ready(None)");
+                    }
+                    self.ended = true;
+                    Poll::Ready(None)
+                }
+            },
             Some(Tok::Pend) => {
                 cx.waker().wake_by_ref();
                 Poll::Pending
@@ -532,7 +550,7 @@ impl Handler {
         if let Some(e) = &self.case.early {
             return Err(make_status(e));
         }
-        let s = RespStream { toks: self.case.body.iter().cloned().collect(), fin: self.case.fin.as_ref().map(make_status) };
+        let s = RespStream { toks: self.case.body.iter().cloned().collect(), fin: self.case.fin.as_ref().map(make_status), ended: false };
         let mut r = Response::new(Box::pin(s) as BoxStream);
         *r.metadata_mut() = metadata(&self.case.init_md);
         Ok(r)
@@ -724,7 +742,7 @@ where
         [Tok::Msg(m)] => Some(m.clone()),
         _ => None,
     };
-    let mk_stream = || ReqStream(case.rq.iter().cloned().collect());
+    let mk_stream = || ReqStream(case.rq.iter().cloned().collect(), false);
     let clean = |m: &MetadataMap| {
         let mut h = m.clone().into_headers();
         for s in strip {
